@@ -40,6 +40,9 @@ func models(c *vf.Ctx) []*chain.Model {
 			variants := [][3]int{{2, 2, 1}} // (D, K, R)
 			if !c.Quick() {
 				variants = [][3]int{{2, 2, 2}, {3, 1, 2}}
+			} else if a.name == "v1contracts" || a.name == "v2contracts" {
+				// contract life cycles need three non-empty blocks (form, revise, resolve): also explored in the quick tier
+				variants = append(variants, [3]int{3, 1, 0})
 			}
 			for _, v := range variants {
 				m := &chain.Model{Name: a.name, Spec: sp, Opt: opt, Menu: a.menu,
@@ -67,7 +70,7 @@ func run(c *vf.Ctx) {
 		}
 		x := chain.NewExplorer(c, m, "C01")
 		x.Run()
-		x.Report(fmt.Sprintf("%s/%s/", m.Spec.Name, m.Name))
+		x.Report(fmt.Sprintf("%s/%s(D=%d,K=%d,R=%d)/", m.Spec.Name, m.Name, m.D, m.K, m.R))
 		total++
 		c.Distinct(m.Spec.Name, m.Name)
 		// hash-symmetry check (DESIGN 2.3): the same model under different key material / salts must visit the
